@@ -133,15 +133,15 @@ Print Assumptions var_affine.
 
 Theorem mean_affine_map : forall (a b : Q) (l : list Q),
   l <> [] -> meanQ (map (fun v => a * v + b) l) == a * meanQ l + b.
-Proof. exact mean_affine_map. Qed.
+Proof. exact meanQ_map_lemma. Qed.
 Print Assumptions mean_affine_map.
 Theorem median_affine_map : forall (a b : Q) (l : list Q),
   0 < a -> l <> [] -> qmedian (map (fun v => a * v + b) l) == a * qmedian l + b.
-Proof. exact median_affine_map. Qed.
+Proof. exact qmedian_map_lemma. Qed.
 Print Assumptions median_affine_map.
 Theorem var_affine_map : forall (a b : Q) (l : list Q),
   l <> [] -> varQ (map (fun v => a * v + b) l) == a * a * varQ l.
-Proof. exact var_affine_map. Qed.
+Proof. exact varQ_map_lemma. Qed.
 Print Assumptions var_affine_map.
 
 (* the model's variance is the mean squared deviation from the mean, and is >= 0 *)
